@@ -177,8 +177,46 @@ def parseMRes (s : String) : Option MRes :=
     | _ => none
   else none
 
+/-! rules with actions: `K <rules> <op> …`, rule = `name:prio:noloop:ck:limit:acts`, acts = `-` | `+`-joined `o` | `t` | `h<n>` -/
+def parseRAct (s : String) : Option RAct :=
+  if s = "o" then some .own
+  else if s = "t" then some .byType
+  else if s.startsWith "h" then (s.drop 1).toString.toNat?.map .handle
+  else none
+
+def parseKRule (s : String) : Option (Nat × CRule × List RAct) :=
+  match s.splitOn ":" with
+  | [n, p, nl, ck, lim, acts] => do
+    let n ← n.toNat?
+    let p ← p.toInt?
+    let lim ← lim.toInt?
+    let acts ← (if acts = "-" then some [] else (acts.splitOn "+").mapM parseRAct)
+    pure (n, { prio := p, noLoop := nl == "1", ck := ck == "1", limit := lim, ak := false, inc := 0 }, acts)
+  | _ => none
+
+def insertEverywhere {α} (x : α) : List α → List (List α)
+  | [] => [[x]]
+  | y :: ys => (x :: y :: ys) :: (insertEverywhere x ys).map (y :: ·)
+
+def permutations {α} : List α → List (List α)
+  | [] => [[]]
+  | x :: xs => (permutations xs).flatMap (insertEverywhere x)
+
+/-- every admissible observation of a `K` case: one per iteration order of the type index (at most 3 inserted facts: every
+permutation of their handles; more: insertion order only) -/
+def kPredictions (rs : List (Nat × CRule × List RAct)) (hops : List HOp) : List String :=
+  let n := (hops.filter (fun o => match o with | .insert _ _ => true | _ => false)).length
+  let perms := if n ≤ 3 then permutations ((List.range n).map (· + 1)) else [[]]
+  (perms.map (fun p =>
+    let e : IncA := { rules := rs, perm := p }
+    joinSp ("ok" :: (hops.zip (e.htrace hops)).map (fun (o, r) => showHResN o r)))).eraseDups
+
 def modelLine (line : String) : String :=
   match tokens line with
+  | "K" :: rules :: ops =>
+    match parseList parseKRule rules, ops.mapM parseHOp with
+    | some rs, some hops => " || ".intercalate (kPredictions rs hops)
+    | _, _ => "bad-case"
   | "M" :: "I" :: rules :: _ :: ops =>
     match parseList parseNRule rules, ops.mapM parseHOp with
     | some rs, some hops =>
@@ -341,6 +379,40 @@ def oracleLine (line : String) : String :=
                 ++ (if all.length > 0 then ["nontrivial"] else []))
           | none => "fail unparsable-observation"
         | _ => if o.trimAscii.toString.startsWith "panic" then "fail fire_all_returns:panic:H" else "fail unparsable-observation"
+      | _, _ => "bad-input"
+    | "K" :: rules :: ops =>
+      match parseList parseKRule rules, ops.mapM parseHOp with
+      | some rs, some hops =>
+        match tokens o with
+        | ["hang"] => "fail fire_all_bounded:hang:K"
+        | "ok" :: toks =>
+          match toks.mapM parseHRes with
+          | some res =>
+            let isNoLoop := nameNoLoopA rs
+            if !histOk isNoLoop incBound [] 1 hops res then
+              let b := histBad isNoLoop incBound 0 [] 1 hops res
+              (match b.splitOn "@" with
+               | [c, i] => s!"fail {c}:K@{i}"
+               | _ => s!"fail {b}:K")
+            else
+              let fires := res.filterMap (fun r => match r with | .fired ns => some ns | _ => none)
+              let all := fires.foldl (· ++ ·) []
+              let acts := rs.flatMap (fun r => r.2.2)
+              -- evidence from the model run (insertion order): some queued retraction failed / removed a fact
+              let nIns := (hops.filter (fun o => match o with | .insert _ _ => true | _ => false)).length
+              let failing := rs.any (fun r => r.2.2.any (fun a => match a with | .handle h => h == 0 || h > nIns | _ => false))
+              joinSp (["ok", "engine_K", s!"fire_calls_{fires.length}"]
+                ++ (if acts.any (· == .own) then ["act_retract_own"] else [])
+                ++ (if acts.any (fun a => match a with | .handle _ => true | _ => false) then ["act_retract_handle"] else [])
+                ++ (if failing then ["act_retract_never_existing"] else [])
+                ++ (if acts.any (· == .byType) then ["act_retract_by_type"] else [])
+                ++ (if (kPredictions rs hops).length > 1 then ["order_dependent"] else [])
+                ++ (if fires.any (fun ns => ns.length ≥ incBound) then ["bound_hit"] else ["quiescent"])
+                ++ (if all.any isNoLoop then ["no_loop_fired"] else [])
+                ++ (if hops.any (· == .reset) then ["reset"] else [])
+                ++ (if all.length > 0 then ["nontrivial"] else []))
+          | none => "fail unparsable-observation"
+        | _ => if o.trimAscii.toString.startsWith "panic" then "fail fire_all_returns:panic:K" else "fail unparsable-observation"
       | _, _ => "bad-input"
     | "M" :: "I" :: rules :: _ :: ops =>
       match parseList parseNRule rules, ops.mapM parseHOp with
